@@ -4,6 +4,11 @@ Every case builds a field whose value is a unique function of the global cell in
 traced back to the source cell it was taken from), a seeded validity mask and (optionally) cell-aligned
 subregions, runs the real selection / extraction / padding / resampling code and compares with an own
 numpy lookup (containing cell / nearest cell of the physical cell-centre of the result in the source lattice).
+The geometry is visited in both number types the library keeps for corner points: doubles (non-representable corners) and
+integers (Python int / numpy int64 / int32 corners, regions below, across and above zero, integral and fractional cell sizes,
+cells smaller than 1), always combined with fractional requested coordinates; coordinates are handed over as Python and NumPy
+scalars of float and integer type and ranges as tuple / list / array; the field data is float64, float32, int64, int32,
+complex128 or complex64.  The oracle always works on the exact double values of the same numbers.
 Bounded: meshes of 1-4 dimensions with at most 8 cells per axis, seeded geometry."""
 import itertools
 import numpy as np
@@ -12,10 +17,12 @@ from .common import raises, ulp_close
 
 PROPERTY = "C07"
 CLAUSES = {
-    "C07.sel_plane": "plane selection (coordinate given, or none = region centre) succeeds inside the region and takes value and validity "
+    "C07.sel_plane": "plane selection (coordinate given as any real scalar - Python/NumPy float or integer -, or none = region centre; double or integer corner points) "
+                     "succeeds inside the region and takes value and validity "
                      "from the cell containing the coordinate (either neighbour when the coordinate is within 8 ulp of a face); a 1-d field returns the cell value",
     "C07.sel_plane_mesh": "plane selection removes exactly the chosen axis: dims/units/n/corners of the other axes are kept, Mesh.sel and Field.sel agree",
-    "C07.sel_range": "range selection (either order of the bounds, bounds on cell faces / subregion faces included) succeeds inside the region and "
+    "C07.sel_range": "range selection (either order of the bounds, tuple / list / array of any real scalars, bounds on cell faces / subregion faces included; "
+                     "double or integer corner points) succeeds inside the region and "
                      "keeps exactly the cells from the one containing the lower to the one containing the upper bound (either neighbour within 8 ulp of a face), values and validity unchanged",
     "C07.sel_range_mesh": "the range-selected mesh is cell-aligned with the source (same cell to 16 ulp of the coordinate scale, corners on the source lattice), other axes untouched, Mesh.sel == Field.sel mesh",
     "C07.getitem_named": "field['name'] has exactly the subregion as region, the parent's cell, and the source's values/validity of the subregion's cells",
@@ -35,13 +42,21 @@ RULE = ("seeded fields on 1-4-d anisotropic meshes (scales 1e-9, 1e-3, 1 with su
         "value = 1 + nvdim*global_index + component, seeded validity; per field and axis: plane selection at none / every centre / every vertex / "
         "pmin / pmax / random; all index ranges (klo<=khi) with bounds at centres, faces and random points in both orders; every subregion by name; "
         "aligned boxes (all in 1-d, sampled otherwise) and arbitrary boxes; pad widths from {0,1,2,n,n+1} per side x 7 modes; all target resolutions <= 8 "
-        "(sampled in 3-4 d). non-trivial = field with more than one cell; distinct by (kind, params)")
+        "(sampled in 3-4 d). Second block: the same five kinds on meshes with INTEGER corner points (Python int, int64 / int32 arrays, integer-valued doubles as "
+        "control; region below / across / above zero / mixed per axis; per axis integral cell 1..3 or edge/n fractional from 1/n to ~3; scalar corners in 1-d; "
+        "integer subregion corners where integral), coordinates passed as float / np.float64 / np.float32 / int / np.int64 and ranges as tuple / list / array, "
+        "aligned boxes with integer corners. Third block: float32 / int64 / int32 / complex128 / complex64 field data on double and integer geometry. "
+        "non-trivial = field with more than one cell; distinct by (kind, params)")
 ASSUMPTIONS = [
     "bounded: 1-4 dimensions, <= 8 cells per axis, seeded geometry; subregion layouts of up to 3 index boxes",
     "pad modes with a positional or order-statistic definition only (constant, edge, wrap, symmetric, reflect, maximum, minimum); "
     "numpy's mean/median/linear_ramp/empty modes are not given a meaning for the Boolean validity by the property and are not checked",
     "region2slices is only specified (docstring: 'cells contained in the region') for cell-aligned regions; arbitrary regions are not checked",
     "a coordinate within 8 ulp (of the coordinate scale) of a cell face may be attributed to either neighbouring cell",
+    "integer corner points are small (|p| <= ~40) so that they and all derived coordinates are exact doubles for the oracle; "
+    "a coordinate handed over as np.float32 means the double value of that float32 number (only used when that value lies in the region)",
+    "values are compared by numerical equality (==) across dtypes: the property does not say that the result keeps the data type of the source "
+    "(the library returns float64 from sel / [] / pad of int and float32 fields); complex 'maximum'/'minimum' padding uses numpy's lexicographic order",
 ]
 
 MODES = ["constant", "edge", "wrap", "symmetric", "reflect", "maximum", "minimum"]
@@ -49,7 +64,59 @@ DIMS = ["u", "w", "q", "t"]
 UNITS = ["nm", "s", "T", "kg"]
 
 
+GEO_INT = {"int": None, "npint64": np.int64, "npint32": np.int32}        # corner points kept by the library as integer arrays
+FDTYPES = {"float64": np.float64, "float32": np.float32, "int64": np.int64, "int32": np.int32, "complex128": np.complex128, "complex64": np.complex64}
+CTYPES = ["float", "np64", "np32", "int", "npint64"]                      # scalar type in which a coordinate is handed over
+CONTAINERS = ["tuple", "list", "array"]
+TRUNC_F32 = "np.float32-coordinate-truncated-on-integer-cornered-mesh"
+
+
 # ------------------------------------------------------------------------------------------ helpers
+def as_ctype(x, ctype, ok=lambda v: True):
+    """(the coordinate as handed to the library in the scalar type under test, its exact value as a double)"""
+    x = float(x)
+    if ctype in ("int", "npint64") and x.is_integer():
+        return (int(x) if ctype == "int" else np.int64(int(x))), x
+    if ctype in ("np64", "npint64"):
+        return np.float64(x), x
+    if ctype == "np32":
+        x32 = np.float32(x)
+        if np.isfinite(x32) and ok(float(x32)):
+            return x32, float(x32)
+    return x, x
+
+
+def int_geometry(rng, ndim, nmax, sign):
+    """integer corner points: region below / across / above zero, per axis an integral cell (1..3) or an arbitrary integer edge
+    (cell = edge/n from 1/n to ~3, mostly fractional); either corner order"""
+    n = rng.integers(2 if ndim == 1 else 1, nmax + 1, size=ndim)
+    if ndim > 1 and len(set(n.tolist())) == 1:
+        n[0] = n[0] % nmax + 1
+    edge, pmin = [], []
+    for j, k in enumerate(int(v) for v in n):
+        how = int(rng.integers(3))
+        if how == 0:
+            e = k * int(rng.integers(1, 4))
+        elif how == 1:
+            e = int(rng.integers(1, 2 * k + 1))
+        else:
+            e = k * int(rng.integers(1, 3)) + int(rng.integers(1, max(k, 2)))
+        sg = sign if sign != "mixed" else ["neg", "span", "pos"][int(rng.integers(3))]
+        if sg == "neg":
+            lo = -e - int(rng.integers(0, 6))
+        elif sg == "span":
+            lo = -int(rng.integers(1, e)) if e > 1 else -1
+        else:
+            lo = int(rng.integers(0, 7))
+        edge.append(e)
+        pmin.append(lo)
+    pmax = [l + e for l, e in zip(pmin, edge)]
+    flip = rng.integers(0, 2, size=ndim).astype(bool)
+    a = [h if f else l for l, h, f in zip(pmin, pmax, flip)]
+    b = [l if f else h for l, h, f in zip(pmin, pmax, flip)]
+    return a, b, n.tolist()
+
+
 class Agg:
     """collect clause evaluations inside loops; one ctx.require per (clause, sig) and case"""
 
@@ -130,12 +197,23 @@ class Src:
         self.cell = (self.pmax - self.pmin) / self.n
         self.scale = np.maximum(np.abs(self.pmin), np.abs(self.pmax))
         self.boxes = pr.get("subs") or []
-        region = df.Region(p1=tuple(self.p1), p2=tuple(self.p2), dims=self.dims, units=self.units)
-        subs = {"r%d" % i: df.Region(p1=tuple(self.pmin + np.array(lo) * self.cell), p2=tuple(self.pmin + np.array(hi) * self.cell))
+        self.geo = pr.get("geo", "float")               # number type of the corner points as handed to the library
+        self.geo_int = self.geo in GEO_INT
+        if self.geo_int and pr.get("scalar1d") and self.ndim == 1:
+            c1, c2 = int(self.p1[0]), int(self.p2[0])   # 1-d regions accept plain numbers
+        else:
+            c1, c2 = self.corner(self.p1), self.corner(self.p2)
+        region = df.Region(p1=c1, p2=c2, dims=self.dims, units=self.units)
+        subs = {"r%d" % i: df.Region(p1=self.corner(self.pmin + np.array(lo) * self.cell), p2=self.corner(self.pmin + np.array(hi) * self.cell))
                 for i, (lo, hi) in enumerate(self.boxes)}
         self.mesh = df.Mesh(region=region, n=tuple(int(k) for k in self.n), subregions=subs)
         lin = np.arange(int(np.prod(self.n))).reshape(tuple(self.n))
-        self.array = (1.0 + self.nvdim * lin[..., None] + np.arange(self.nvdim)).astype(float)
+        self.fdtype = pr.get("fdtype", "float64")
+        dt = FDTYPES[self.fdtype]
+        base = 1 + self.nvdim * lin[..., None] + np.arange(self.nvdim)
+        if np.issubdtype(dt, np.complexfloating):
+            base = base + 1j * (0.25 - 2.0 * base)        # distinct, non-zero imaginary parts (exact in complex64)
+        self.array = base.astype(dt)
         vr = np.random.default_rng(pr.get("vseed", 0))
         self.valid = vr.random(tuple(self.n)) < 0.65
         self.vdims = ["va", "vb", "vc", "vd"][: self.nvdim] if self.nvdim > 1 else None
@@ -143,8 +221,22 @@ class Src:
         if self.nvdim > 1:
             kw["vdims"] = self.vdims
             kw["vdim_mapping"] = {v: (self.dims[i] if i < self.ndim and i != 1 else None) for i, v in enumerate(self.vdims)}
+        if self.fdtype != "float64":
+            kw["dtype"] = dt
         self.field = df.Field(self.mesh, nvdim=self.nvdim, value=self.array.copy(), valid=self.valid.copy(), unit="A/m", **kw)
         self.vdim_mapping = dict(self.field.vdim_mapping)
+
+    def corner(self, vals):
+        """corner point in the number type of this geometry: integers (where the values are integral) for integer geometries, doubles otherwise"""
+        vals = np.asarray(vals, float)
+        if self.geo_int and all(float(v).is_integer() for v in vals):
+            if self.geo == "int":
+                return tuple(int(v) for v in vals)
+            return np.array([int(v) for v in vals], dtype=GEO_INT[self.geo])
+        return tuple(vals)
+
+    def inside(self, a):
+        return lambda v: bool(self.pmin[a] <= v <= self.pmax[a])
 
     def qtol(self, a, q):
         return 8 * np.spacing(self.scale[a]) / self.cell[a] + 8 * np.spacing(max(abs(q), 1.0))
@@ -214,6 +306,57 @@ def cases(ctx):
             for mode in MODES:
                 yield "pad", dict(base, mode=mode, seed=int(rng.integers(1 << 30)), nwidths=3 if quick else 8)
             yield "resample", dict(base, seed=int(rng.integers(1 << 30)), ntargets=64 if quick else 100)
+    # ---- integer corner points (the library keeps pmin/pmax as integer arrays), fractional coordinates, all scalar / container types
+    geos = ["int", "npint64", "int", "npint32", "int", "floatint"]
+    signs = ["neg", "span", "mixed", "pos"]
+    fdts = ["float64", "int64", "float64", "float32", "float64", "complex128", "float64", "int32", "float64", "complex64"]
+    cnt = 0
+    reps_i = 6 if quick else 32
+    for ndim in (1, 2, 3, 4):
+        nmax = {1: 8, 2: 6, 3: 4, 4: 3}[ndim] if quick else {1: 8, 2: 8, 3: 5, 4: 4}[ndim]
+        for rep in range(reps_i):
+            geo, sign = geos[rep % len(geos)], signs[(rep + ndim) % len(signs)]
+            p1, p2, n = int_geometry(rng, ndim, nmax, sign)
+            with_sub = rep % 3 != 1
+            base = {"p1": p1, "p2": p2, "n": n, "nvdim": int(rng.choice([1, 2, 3])), "vseed": int(rng.integers(1 << 30)), "geo": geo,
+                    "subs": index_boxes(rng, n, int(rng.integers(1, 4))) if with_sub else [], "fdtype": fdts[cnt % len(fdts)]}
+            if ndim == 1 and rep % 2:
+                base["scalar1d"] = True
+            if rep % 2 == 0:
+                base["dims"] = ["x", "y", "z"][:ndim] if ndim <= 3 else ["x0", "x1", "x2", "x3"]
+            for a in range(ndim):
+                cnt += 1
+                yield "sel_plane", dict(base, axis=a, seed=int(rng.integers(1 << 30)), ctype=CTYPES[cnt % len(CTYPES)])
+                yield "sel_range", dict(base, axis=a, seed=int(rng.integers(1 << 30)), ctype=CTYPES[(cnt // 2) % len(CTYPES)], cont=CONTAINERS[cnt % len(CONTAINERS)])
+            yield "getitem", dict(base, seed=int(rng.integers(1 << 30)), nboxes=12 if quick else 40)
+            for mode in (MODES if not quick else [MODES[(cnt + i) % len(MODES)] for i in range(3)]):
+                yield "pad", dict(base, mode=mode, seed=int(rng.integers(1 << 30)), nwidths=3 if quick else 8)
+            yield "resample", dict(base, seed=int(rng.integers(1 << 30)), ntargets=24 if quick else 100)
+    # ---- field data types on double geometry (float32 / integer / complex data must stay at their positions just the same)
+    for ndim in (1, 2, 3, 4):
+        nmax = {1: 8, 2: 6, 3: 4, 4: 3}[ndim]
+        for fdt in ["float32", "int64", "int32", "complex128", "complex64"] * (1 if quick else 4):
+            cnt += 1
+            p1, p2, n = geometry(rng, ndim, True, nmax)
+            base = {"p1": p1, "p2": p2, "n": n, "nvdim": int(rng.choice([1, 2, 3])), "vseed": int(rng.integers(1 << 30)),
+                    "subs": index_boxes(rng, n, int(rng.integers(1, 3))), "fdtype": fdt}
+            a = int(rng.integers(ndim))
+            yield "sel_plane", dict(base, axis=a, seed=int(rng.integers(1 << 30)), ctype=CTYPES[cnt % len(CTYPES)])
+            yield "sel_range", dict(base, axis=a, seed=int(rng.integers(1 << 30)), ctype=CTYPES[(cnt + 2) % len(CTYPES)], cont=CONTAINERS[cnt % len(CONTAINERS)])
+            yield "getitem", dict(base, seed=int(rng.integers(1 << 30)), nboxes=8 if quick else 30)
+            for i in range(2 if quick else 7):
+                yield "pad", dict(base, mode=MODES[(cnt + 3 * i) % len(MODES)], seed=int(rng.integers(1 << 30)), nwidths=3 if quick else 6)
+            yield "resample", dict(base, seed=int(rng.integers(1 << 30)), ntargets=16 if quick else 64)
+    # fixed integer-corner configurations: unit cells on a region across zero; fractional cell 1.25; cells smaller than 1; scalar 1-d corners
+    for ct in CTYPES:
+        fx = {"p1": [-4, -3, -2], "p2": [4, 3, 2], "n": [8, 6, 4], "nvdim": 1, "vseed": 5, "subs": [], "geo": "int", "dims": ["x", "y", "z"]}
+        yield "sel_plane", dict(fx, axis=0, seed=5, ctype=ct)
+        yield "sel_range", dict(fx, p2=[4, 3, -1], n=[8, 3, 1], axis=0, seed=5, ctype=ct, cont="tuple")
+        fy = {"p1": [10, 0], "p2": [0, 3], "n": [8, 8], "nvdim": 2, "vseed": 6, "subs": [[[0, 0], [4, 8]]], "geo": "npint64"}
+        yield "sel_plane", dict(fy, axis=1, seed=6, ctype=ct)
+        yield "sel_range", dict(fy, axis=0, seed=6, ctype=ct, cont="list")
+        yield "sel_range", {"p1": [-7], "p2": [-2], "n": [4], "nvdim": 3, "vseed": 7, "subs": [], "geo": "int", "scalar1d": True, "axis": 0, "seed": 7,
+                            "ctype": ct, "cont": "array"}
     # fixed cases: the documented shape of the sel-at-subregion-face and aligned-box problems, integer corners
     yield "sel_range", {"p1": [0.0], "p2": [0.6], "n": [6], "nvdim": 1, "vseed": 1, "subs": [[[1], [2]]], "axis": 0, "seed": 1, "dims": ["x"]}
     yield "getitem", {"p1": [0.1, 0.0], "p2": [0.7, 1.0], "n": [6, 2], "nvdim": 1, "vseed": 1, "subs": [[[0, 0], [1, 1]]], "seed": 1, "nboxes": 30, "dims": ["x", "y"]}
@@ -241,19 +384,33 @@ def check_sel_plane(src, pr, ag):
     coords += [src.centre(a, k) for k in range(n)] + [src.vertex(a, k) for k in range(1, n)]
     coords += [float(src.pmin[a] + u * (src.pmax[a] - src.pmin[a])) for u in rng.uniform(0, 1, 4)]
     others = [j for j in range(src.ndim) if j != a]
-    for x in coords:
-        xx = float(0.5 * (src.pmin[a] + src.pmax[a])) if x is None else x
+    ctype = pr.get("ctype", "float")
+    for x0 in coords:
+        if x0 is None:
+            x, xx = None, float(0.5 * (src.pmin[a] + src.pmax[a]))
+        else:
+            x, xx = as_ctype(x0, ctype, src.inside(a))      # x: what the library gets; xx: the same number as a double
         cand = src.cands(a, xx)
         call = (lambda: f.sel(dim)) if x is None else (lambda: f.sel(**{dim: x}))
         r, res = raises(Exception, call)
-        if not ag.req(not r, "C07.sel_plane", "plane selection inside the region raised", coord=x, axis=a, error=repr(res)[:200]):
+        if not ag.req(not r, "C07.sel_plane", "plane selection inside the region raised", coord=x, coord_type=type(x).__name__, axis=a, error=repr(res)[:200]):
             continue
+
+        def sig_for(got):
+            # an np.float32 coordinate on integer corner points is cut to an integer before the cell lookup (reported separately)
+            if isinstance(x, np.float32) and src.geo_int and got and set(got) <= src.cands(a, float(np.trunc(xx))):
+                return TRUNC_F32
+            return None
         if src.ndim == 1:
-            ok = isinstance(res, np.ndarray) and any(np.array_equal(res, src.array[k]) for k in cand)
-            ag.req(ok, "C07.sel_plane", "1-d plane selection does not return the value of the containing cell", coord=x, got=res, cells=sorted(cand))
+            got = [k for k in range(n) if isinstance(res, np.ndarray) and np.array_equal(res, src.array[k])]
+            ok = bool(got) and set(got) <= cand
+            ag.req(ok, "C07.sel_plane", "1-d plane selection does not return the value of the containing cell", sig=None if ok else sig_for(got),
+                   coord=x, coord_type=type(x).__name__, got=res, taken_from_cells=got, cells=sorted(cand))
             continue
-        hit = [k for k in cand if np.array_equal(res.array, np.take(src.array, k, axis=a)) and np.array_equal(res.valid, np.take(src.valid, k, axis=a))]
-        ag.req(hit and res.valid.dtype == bool, "C07.sel_plane", "value/validity not those of the cell containing the coordinate", coord=x, axis=a, cells=sorted(cand))
+        got = [k for k in range(n) if np.array_equal(res.array, np.take(src.array, k, axis=a)) and np.array_equal(res.valid, np.take(src.valid, k, axis=a))]
+        ok = bool(got) and set(got) <= cand and res.valid.dtype == bool
+        ag.req(ok, "C07.sel_plane", "value/validity not those of the cell containing the coordinate", sig=None if ok else sig_for(got),
+               coord=x, coord_type=type(x).__name__, axis=a, taken_from_cells=got, cells=sorted(cand), pmin=src.pmin[a], cell=src.cell[a])
         m = res.mesh
         rm, mm = raises(Exception, (lambda: src.mesh.sel(dim)) if x is None else (lambda: src.mesh.sel(**{dim: x})))
         geo = (m.region.ndim == src.ndim - 1 and np.array_equal(m.n, src.n[others])
@@ -268,9 +425,13 @@ def check_sel_plane(src, pr, ag):
         ag.req(okp, "C07.same_point", "cell centres of the plane do not coincide with the source's cell centres", axis=a, coord=x)
     # outside
     ext = src.pmax[a] - src.pmin[a]
-    for x in (float(src.pmin[a] - 0.01 * ext - 4 * np.spacing(src.scale[a])), float(src.pmax[a] + 0.01 * ext + 4 * np.spacing(src.scale[a])), float(src.pmax[a] + 3 * ext)):
+    outs = [float(src.pmin[a] - 0.01 * ext - 4 * np.spacing(src.scale[a])), float(src.pmax[a] + 0.01 * ext + 4 * np.spacing(src.scale[a])), float(src.pmax[a] + 3 * ext)]
+    if src.geo_int:     # less than one unit outside integer corner points (a cut-off coordinate would be inside), and whole units outside
+        outs += [float(src.pmin[a] - 0.5), float(src.pmax[a] + 0.25), float(src.pmin[a] - 1), float(src.pmax[a] + 2)]
+    for x0 in outs:
+        x, _ = as_ctype(x0, ctype, lambda v: not src.inside(a)(v))
         ag.req(rej(lambda: f.sel(**{dim: x})) and rej(lambda: src.mesh.sel(**{dim: x})),
-               "C07.reject_outside", "plane coordinate outside the region accepted", coord=x, axis=a)
+               "C07.reject_outside", "plane coordinate outside the region accepted", coord=x, coord_type=type(x).__name__, axis=a)
     ag.req(rej(lambda: f.sel("nope")) and rej(lambda: f.sel(nope=float(src.pmin[a]))),
            "C07.reject_outside", "unknown axis accepted")
 
@@ -292,17 +453,29 @@ def check_sel_range(src, pr, ag):
             reqs.append((src.vertex(a, klo) if klo else float(src.pmin[a]), src.centre(a, khi), "face-centre"))
             u, v = rng.uniform(0.1, 0.9, 2)
             reqs.append((float(src.pmin[a] + (klo + u) * src.cell[a]), float(src.pmin[a] + (khi + v) * src.cell[a]), "inside"))
-    for lo, hi, how in reqs:
-        lo, hi = min(lo, hi), max(lo, hi)
+    ctype, cont = pr.get("ctype", "float"), pr.get("cont", "tuple")
+    for lo0, hi0, how in reqs:
+        lo0, hi0 = min(lo0, hi0), max(lo0, hi0)
+        (plo, lo), (phi, hi) = as_ctype(lo0, ctype, src.inside(a)), as_ctype(hi0, ctype, src.inside(a))   # p..: what the library gets; lo/hi the same numbers as doubles
+        if lo > hi:         # (float32 rounding of two nearly equal bounds)
+            (plo, lo), (phi, hi) = (lo0, lo0), (hi0, hi0)
         clo, chi = src.cands(a, lo), src.cands(a, hi)
-        for order in ((lo, hi), (hi, lo)):
+        for order in ((plo, phi), (phi, plo)):
+            order = {"tuple": tuple, "list": list, "array": np.array}[cont](order)
+            types = "%s of %s" % (type(order).__name__, "/".join(sorted({type(v).__name__ for v in order})))
             r, res = raises(Exception, lambda: f.sel(**{dim: order}))
             if r:
                 # which index range was requested (for the signature): any candidate pair touching a subregion from outside?
                 touch = any(touching_subregion(src, a, i, j) for i in clo for j in chi if i <= j)
-                sig = "sel-range-raises-when-subregion-touches-the-range" if (touch and isinstance(res, ValueError) and "cannot be divided" in str(res)) else None
+                divided = isinstance(res, ValueError) and "cannot be divided" in str(res)
+                sig = "sel-range-raises-when-subregion-touches-the-range" if (touch and divided) else None
+                if sig is None and divided and src.geo_int and any(isinstance(v, np.float32) for v in order):
+                    # np.float32 bounds cut to integers select other cells (reported separately); those may touch a subregion where the requested ones do not
+                    tlo, thi = src.cands(a, float(np.trunc(lo))), src.cands(a, float(np.trunc(hi)))
+                    if (tlo, thi) != (clo, chi) and any(touching_subregion(src, a, i, j) for i in tlo for j in thi if i <= j):
+                        sig = TRUNC_F32
                 ag.req(False, "C07.sel_range", "range selection inside the region raised", sig=sig, bounds=list(order), how=how, axis=a, error=repr(res)[:160],
-                       subregion_boxes=src.boxes)
+                       subregion_boxes=src.boxes, types=types)
                 continue
             ag.req(True, "C07.sel_range")
             m = res.mesh
@@ -312,9 +485,14 @@ def check_sel_range(src, pr, ag):
             maps, al = lattice_maps(src, m.region.pmin, m.region.pmax, m.n, list(range(src.ndim)))
             ka = maps[a]
             contiguous = len(ka) >= 1 and np.array_equal(ka, np.arange(ka[0], ka[0] + len(ka)))
-            ag.req(contiguous and int(ka[0]) in clo and int(ka[-1]) in chi, "C07.sel_range",
-                   "kept cells are not those from the cell containing the lower to the cell containing the upper bound",
-                   bounds=list(order), how=how, axis=a, kept=[int(ka[0]), int(ka[-1])] if len(ka) else [], want_lo=sorted(clo), want_hi=sorted(chi))
+            okk = contiguous and int(ka[0]) in clo and int(ka[-1]) in chi
+            sig = None
+            if not okk and contiguous and src.geo_int and any(isinstance(v, np.float32) for v in order) \
+                    and int(ka[0]) in src.cands(a, float(np.trunc(lo))) and int(ka[-1]) in src.cands(a, float(np.trunc(hi))):
+                sig = TRUNC_F32     # np.float32 bounds on integer corner points are cut to integers before the cell lookup (reported separately)
+            ag.req(okk, "C07.sel_range", "kept cells are not those from the cell containing the lower to the cell containing the upper bound", sig=sig,
+                   bounds=list(order), types=types, how=how, axis=a, kept=[int(ka[0]), int(ka[-1])] if len(ka) else [], want_lo=sorted(clo), want_hi=sorted(chi),
+                   pmin=src.pmin[a], cell=src.cell[a])
             oth = all(np.array_equal(maps[j], np.arange(src.n[j])) for j in others) and np.array_equal(m.n[others], src.n[others])
             ag.req(al and oth and same_cell(src, m, range(src.ndim)), "C07.sel_range_mesh", "selected mesh not cell-aligned with the source / other axes changed",
                    bounds=list(order), axis=a, cell=m.cell, want_cell=src.cell)
@@ -326,8 +504,12 @@ def check_sel_range(src, pr, ag):
             ag.req(okv, "C07.same_point", "value/validity differ from the source's at the same cell centre", bounds=list(order), axis=a)
     ext = src.pmax[a] - src.pmin[a]
     inside = src.centre(a, 0)
-    for bad in ((float(src.pmin[a] - 0.01 * ext - 4 * np.spacing(src.scale[a])), inside), (inside, float(src.pmax[a] + 0.01 * ext + 4 * np.spacing(src.scale[a]))),
-                (float(src.pmax[a] + 2 * ext), float(src.pmax[a] + 3 * ext))):
+    bads = [(float(src.pmin[a] - 0.01 * ext - 4 * np.spacing(src.scale[a])), inside), (inside, float(src.pmax[a] + 0.01 * ext + 4 * np.spacing(src.scale[a]))),
+            (float(src.pmax[a] + 2 * ext), float(src.pmax[a] + 3 * ext))]
+    if src.geo_int:     # less than one unit outside integer corner points
+        bads += [(float(src.pmin[a] - 0.5), inside), (inside, float(src.pmax[a] + 0.25)), (float(src.pmin[a] - 1), float(src.pmax[a]))]
+    for bad in bads:
+        bad = tuple(as_ctype(v, ctype, (lambda w: src.inside(a)(w) == src.inside(a)(v)))[0] for v in bad)
         ag.req(rej(lambda: f.sel(**{dim: bad})) and rej(lambda: src.mesh.sel(**{dim: bad[::-1]})),
                "C07.reject_outside", "range reaching outside the region accepted", bounds=list(bad), axis=a)
 
@@ -373,7 +555,7 @@ def check_getitem(src, pr, ag):
         a_ = src.pmin + np.array(lo) * src.cell
         b_ = np.where(np.array(hi) == src.n, src.pmax, src.pmin + np.array(hi) * src.cell)
         flip = rng.integers(0, 2, nd).astype(bool)
-        reg = df.Region(p1=tuple(np.where(flip, b_, a_)), p2=tuple(np.where(flip, a_, b_)))
+        reg = df.Region(p1=src.corner(np.where(flip, b_, a_)), p2=src.corner(np.where(flip, a_, b_)))      # integer corners on integer geometries where integral
         r, res = raises(Exception, lambda: f[reg])
         if r:
             # the same unrounded ceil() that adds a cell layer inside the mesh runs out of range for a box ending on the upper boundary
@@ -401,6 +583,19 @@ def check_getitem(src, pr, ag):
                    "array[region2slices(region)] differs from field[region]", box=[lo, hi])
 
     # ---- arbitrary boxes: corners clearly inside cells
+    def check_box(reg, lo, hi, a_, b_):
+        r, res = raises(Exception, lambda: f[reg])
+        if not ag.req(not r, "C07.getitem_region", "field[arbitrary box] raised", lo=lo, hi=hi, p1=a_, p2=b_, error=repr(res)[:160]):
+            return
+        maps, al = lattice_maps(src, res.mesh.region.pmin, res.mesh.region.pmax, res.mesh.n, allax)
+        glo, ghi = [int(mp[0]) for mp in maps], [int(mp[-1]) for mp in maps]
+        ag.req(glo == lo.tolist() and ghi == hi.tolist(), "C07.getitem_region", "not the smallest block of whole cells containing the box",
+               want=[lo, hi], got=[glo, ghi], p1=a_, p2=b_, corner_dtype=str(reg.pmin.dtype))
+        ag.req(al and same_cell(src, res.mesh, allax) and data_ok(res, glo, np.array(ghi) + 1), "C07.same_point",
+               "values/validity of field[box] differ from the source's at the same cell centres", want=[lo, hi], got=[glo, ghi])
+        rm, mm = raises(Exception, lambda: src.mesh[reg])
+        ag.req(not rm and mm == res.mesh, "C07.getitem_region", "mesh[region] differs from field[region].mesh")
+
     for _ in range(pr["nboxes"]):
         lo = np.array([int(rng.integers(0, k)) for k in src.n])
         hi = np.array([int(rng.integers(l, k)) for l, k in zip(lo, src.n)])     # index of the last cell (inclusive)
@@ -408,18 +603,31 @@ def check_getitem(src, pr, ag):
         b_ = src.pmin + (hi + rng.uniform(0.05, 0.95, nd)) * src.cell
         same = (lo == hi) & (b_ <= a_)
         b_ = np.where(same, a_ + 0.01 * src.cell, b_)
-        reg = df.Region(p1=tuple(b_), p2=tuple(a_), dims=src.dims)
-        r, res = raises(Exception, lambda: f[reg])
-        if not ag.req(not r, "C07.getitem_region", "field[arbitrary box] raised", lo=lo, hi=hi, error=repr(res)[:160]):
+        check_box(df.Region(p1=tuple(b_), p2=tuple(a_), dims=src.dims), lo, hi, a_, b_)
+
+    # ---- integer geometries: boxes with INTEGER corners that are not cell-aligned (axes with a fractional cell: integers clearly inside the
+    #      first / last cell; axes with an integral cell: the faces, exact in integer arithmetic)
+    for _ in range(pr["nboxes"] if src.geo_int else 0):
+        lo = np.array([int(rng.integers(0, k)) for k in src.n])
+        hi = np.array([int(rng.integers(l, k)) for l, k in zip(lo, src.n)])
+        a_, b_ = [], []
+        for j in range(nd):
+            c, p0 = float(src.cell[j]), float(src.pmin[j])
+            if c.is_integer():
+                a_.append(p0 + lo[j] * c)
+                b_.append(p0 + (hi[j] + 1) * c)
+                continue
+            inner = lambda k: [v for v in range(int(np.ceil(p0 + k * c)), int(np.floor(p0 + (k + 1) * c)) + 1) if 0.02 < (v - p0) / c - k < 0.98]
+            ca, cb = inner(int(lo[j])), inner(int(hi[j]))
+            pairs = [(u, v) for u in ca for v in cb if u < v]
+            if not pairs:
+                break
+            u, v = pairs[int(rng.integers(len(pairs)))]
+            a_.append(float(u))
+            b_.append(float(v))
+        if len(a_) < nd:
             continue
-        maps, al = lattice_maps(src, res.mesh.region.pmin, res.mesh.region.pmax, res.mesh.n, allax)
-        glo, ghi = [int(mp[0]) for mp in maps], [int(mp[-1]) for mp in maps]
-        ag.req(glo == lo.tolist() and ghi == hi.tolist(), "C07.getitem_region", "not the smallest block of whole cells containing the box",
-               want=[lo, hi], got=[glo, ghi], p1=a_, p2=b_)
-        ag.req(al and same_cell(src, res.mesh, allax) and data_ok(res, glo, np.array(ghi) + 1), "C07.same_point",
-               "values/validity of field[box] differ from the source's at the same cell centres", want=[lo, hi], got=[glo, ghi])
-        rm, mm = raises(Exception, lambda: src.mesh[reg])
-        ag.req(not rm and mm == res.mesh, "C07.getitem_region", "mesh[region] differs from field[region].mesh")
+        check_box(df.Region(p1=src.corner(b_), p2=src.corner(a_), dims=src.dims), lo, hi, np.array(a_), np.array(b_))
 
     # ---- outside
     ext = src.pmax - src.pmin
@@ -439,13 +647,17 @@ def check_getitem(src, pr, ag):
                 q1[a], q2[a] = src.pmin[a] - src.cell[a], src.pmin[a] + src.cell[a]
             else:
                 q1[a], q2[a] = src.pmax[a] - src.cell[a], src.pmax[a] + src.cell[a]
-            reg2 = df.Region(p1=tuple(q1), p2=tuple(q2))
+            reg2 = df.Region(p1=src.corner(q1), p2=src.corner(q2))
             ag.req(rej(lambda: src.mesh.region2slices(reg2)), "C07.reject_outside", "aligned box sticking out by one cell accepted by region2slices", axis=a, side=side)
     far = df.Region(p1=tuple(src.pmax + 2 * ext), p2=tuple(src.pmax + 3 * ext))
     ag.req(rej(lambda: f[far]), "C07.reject_outside", "far-away region accepted")
 
 
 # ---- own 1-d padding semantics
+def lexkey(z):
+    return (z.real, z.imag) if isinstance(z, (complex, np.complexfloating)) else z
+
+
 def pad1d(vec, lo, hi, mode, const):
     n = len(vec)
     out = []
@@ -468,9 +680,9 @@ def pad1d(vec, lo, hi, mode, const):
                 m = i % (2 * n - 2)
                 out.append(vec[m] if m < n else vec[2 * n - 2 - m])
         elif mode == "maximum":
-            out.append(max(vec))
+            out.append(max(vec, key=lexkey))
         elif mode == "minimum":
-            out.append(min(vec))
+            out.append(min(vec, key=lexkey))
         else:
             raise KeyError(mode)
     return np.array(out, dtype=np.asarray(vec).dtype)
@@ -555,7 +767,7 @@ def check_resample(src, pr, ag):
             tie = np.abs(q - fl - 0.5) <= 16 * np.spacing(src.scale[a]) / src.cell[a] + 16 * np.spacing(np.maximum(np.abs(q), 1.0))
             cand.append([({int(np.clip(fl[j], 0, src.n[a] - 1)), int(np.clip(fl[j] + 1, 0, src.n[a] - 1))} if tie[j] else {int(near[j])}) for j in range(tn[a])])
         # decode the source cell from the (unique) value
-        lin = np.round((res.array[..., 0] - 1.0) / src.nvdim).astype(int)
+        lin = np.round((np.real(res.array[..., 0]) - 1.0) / src.nvdim).astype(int)
         okr = bool(np.all((lin >= 0) & (lin < int(np.prod(src.n)))))
         bad = None
         if okr:
